@@ -185,3 +185,20 @@ def random_items(seed, prop, fn, count, maxn=12):
         c = gen.GENERATORS[fn](rng, maxn) if fn != "flat" else gen.gen_flat(rng, maxn)
         items.append((c, *pick_carriers(c, rng)))
     return items
+
+
+def corpus_items(prop):
+    """Minimised past failures and hand-picked boundary cases kept under corpus/<prop>/; they run first."""
+    import json
+    from engine import ROOT
+    from props.registry import _unjson
+
+    items = []
+    d = ROOT / "corpus" / prop
+    if d.is_dir():
+        for f in sorted(d.glob("*.json")):
+            data = json.loads(f.read_text())
+            case = _unjson(data["case"])
+            case["fn"] = data["fn"]
+            items.append((refresh(case), *data["carriers"]))
+    return items
